@@ -12,9 +12,13 @@ CONSTANTS
     MaxTasks = 1
     MaxDepth = 3
     Panics = TRUE
+    Discards = FALSE
     MaxSpans = 2
     IncomingKinds <- MC_IncPartial
     WithLazy = TRUE
+    HasRng = TRUE
+    ExplicitKinds <- MC_ExNone
+    PushLastWins = TRUE
     WithCancel = TRUE
     CancelOwnIds = FALSE
     CtxForms <- MC_Forms
